@@ -107,6 +107,7 @@ type c11Case struct {
 	T5ms   int     `json:"t5_ms"`
 	Status int     `json:"select_status"`
 	Delays bool    `json:"delay_injection,omitempty"`
+	ReOpen bool    `json:"redundant_open_during_outage,omitempty"`
 }
 
 func c11Cases(env *fw.Env) []c11Case {
@@ -178,6 +179,12 @@ func c11Cases(env *fw.Env) []c11Case {
 				add(c11Case{Kind: "failed-listens", Active: false, Streak: streak, InitMs: g.init, Mult: g.m, T5ms: g.t5})
 			}
 		}
+	}
+	// the outage during which the application calls Open again (documented: refused with the already-open error): the
+	// recovery that was under way must still happen
+	for gi, g := range grid[:3] {
+		add(c11Case{Kind: "refused-dials", Active: true, Streak: 3 + gi, InitMs: g.init, Mult: g.m, T5ms: g.t5, ReOpen: true})
+		add(c11Case{Kind: "failed-listens", Active: false, Streak: 2 + gi, InitMs: g.init, Mult: g.m, T5ms: g.t5, ReOpen: true})
 	}
 	if !quick {
 		// thorough: every role-agnostic fault also in the other TCP role, and every single fault once more with
@@ -506,6 +513,13 @@ func c11One(env *fw.Env, cs c11Case) {
 		})
 		pc.Reset()
 		env.Event("streak_cases", 1)
+		if cs.ReOpen {
+			waitFor(5*time.Second, func() bool { return rg.Trk.DialCount() > base })
+			if err := rg.Conn.Open(context.Background(), hsms.OpenBackground); !errors.Is(err, hsms.ErrAlreadyOpen) {
+				fail("redundant-open-not-refused", fmt.Sprintf("Open on an open connection (reconnect pending) returned %v, want the already-open error", err))
+			}
+			env.Event("redundant_opens_during_outage", 1)
+		}
 	case "failed-listens":
 		base := rg.Trk.ListenCount()
 		rg.Trk.SetFailListen(func(n int) error {
@@ -517,6 +531,13 @@ func c11One(env *fw.Env, cs c11Case) {
 		})
 		pc.Reset()
 		env.Event("streak_cases", 1)
+		if cs.ReOpen {
+			waitFor(5*time.Second, func() bool { return rg.Trk.ListenCount() > base })
+			if err := rg.Conn.Open(context.Background(), hsms.OpenBackground); !errors.Is(err, hsms.ErrAlreadyOpen) {
+				fail("redundant-open-not-refused", fmt.Sprintf("Open on an open connection (re-listen pending) returned %v, want the already-open error", err))
+			}
+			env.Event("redundant_opens_during_outage", 1)
+		}
 	}
 
 	// ---- recovery: the peer is now well behaved ----
